@@ -843,6 +843,7 @@ def r7(ctx, R):
     ret = next(r for r in f.node.body if isinstance(r, ast.Return) and isinstance(r.value, ast.Tuple))
     regions = unparse(ret.value.elts[1])
     stack = group = None
+    group_is_record = False
     for c in calls_in(f.node):
         if isinstance(c.func, ast.Attribute) and c.func.attr == "append" and unparse(c.func.value) == regions and c.args:
             # the closed region is the popped entry itself, or is built around it (`[stack.pop(), end]`)
@@ -859,6 +860,7 @@ def r7(ctx, R):
                 a0 = rd[0] if len(rd) == 1 else a0
             if isinstance(a0, ast.Call) and isinstance(a0.func, ast.Name) and a0.func.id[:1].isupper() and a0.args and unparse(a0.args[0]) == f"len({stack})":
                 group = unparse(c.func.value)  # a record (dataclass) per #elif group instead of a two-element list
+                group_is_record = True
     if not stack or not group:
         raise AnalysisError("preprocess_file: conditional stack / #elif group list not identified")
     # arms
@@ -905,8 +907,33 @@ def r7(ctx, R):
         elif any(b[0] in ("cond", "null", "nonnull", "truthy", "falsy") for b in facts if any(isinstance(x, str) and __import__("re").search(r"(?<![.\w])\w*group\w*\(", x.lower()) for x in b[1:2])):
             # guarded by some test about the group (a helper such as `current_elif_group() is None`), in a form the rule does not read
             R.undecided("C08.R7", f.short, "group entry pushed once per chain", loc(f, c), "the push is guarded by a test about the group list that the rule does not recognise")
+        elif group_is_record or _under_helper_answer(ctx, f, c):
+            # `g = current_group(); if g is None: push`: guarded by the answer of a nested helper the rule does not read
+            R.undecided("C08.R7", f.short, "group entry pushed once per chain", loc(f, c), "the push is guarded by the answer of a nested helper (not read by the rule)")
         else:
             R.violation("C08.R7", f.short, "group entry pushed once per chain", loc(f, c), "a group entry is pushed for every #elif, not only for the first of a chain")
+
+
+def _under_helper_answer(ctx, f, node):
+    """node sits in the body of `if X is None:` / `if not X:` where X is a local bound to the answer of a nested helper of f"""
+    p_ = ctx.m.parent.get(node)
+    child = node
+    while p_ is not None and p_ is not f.node:
+        if isinstance(p_, ast.If) and any(child is s_ or any(child is y for y in ast.walk(s_)) for s_ in p_.body):
+            t = p_.test
+            nm = None
+            if isinstance(t, ast.Compare) and len(t.ops) == 1 and isinstance(t.ops[0], ast.Is) and isinstance(t.left, ast.Name) and isinstance(t.comparators[0], ast.Constant) and t.comparators[0].value is None:
+                nm = t.left.id
+            elif isinstance(t, ast.UnaryOp) and isinstance(t.op, ast.Not) and isinstance(t.operand, ast.Name):
+                nm = t.operand.id
+            if nm and any(isinstance(d_, ast.Call) and ctx.r.resolve_call(f, d_)[0] == "nested" for d_ in defs_values(ctx, f, nm)):
+                return True
+        child, p_ = p_, ctx.m.parent.get(p_)
+    return False
+
+
+def defs_values(ctx, f, name):
+    return [v for _, v in defs_of(ctx, f, name) if v is not None]
 
 
 # ------------------------------------------------------------------ R9
